@@ -59,6 +59,32 @@ run shrink_comment C14 ractor/src/factory/factoryimpl.rs '                      
 run frame_limit_local C19 $N '                    .with_max_inbound_frame_size(self.max_inbound_frame_size),
                     *stream,' '                    .with_max_inbound_frame_size({ let limit = self.max_inbound_frame_size; limit }),
                     *stream,' "--only-unit nodeopen"
+F=ractor/src/factory/factoryimpl.rs; C=ractor/src/actor/actor_cell.rs
+run settings_assign_before_loop C15 $F '            for worker in self.pool.values_mut() {
+                worker.discard_settings = worker_discard_settings.clone();
+            }
+            self.discard_settings = discard_settings;' '            self.discard_settings = discard_settings;
+            for worker in self.pool.values_mut() {
+                worker.discard_settings = worker_discard_settings.clone();
+            }' "--only-unit settings"
+run resize_sets_size_in_grow_arm_too C15 $F '                self.grow_pool(myself, to_add).await?;
+            }' '                self.grow_pool(myself, to_add).await?;
+                self.pool_size = new_pool_size;
+            }' "--only-unit resize"
+run kill_skips_a_stopped_actor C01 $C '        let _ = self.inner.send_signal(Signal::Kill);
+    }' '        if self.get_status() != ActorStatus::Stopped { let _ = self.inner.send_signal(Signal::Kill); }
+    }' "--only-unit signals"
+run outport_bigger_buffer C16 ractor/src/port/output.rs 'let (tx, _rx) = pubsub::channel(10);' 'let (tx, _rx) = pubsub::channel(16);' ""
+run advertise_collect_typed C20 $S '            .collect::<Vec<_>>();
+        state
+            .advertised_local_pids' '            .collect::<Vec<control_protocol::Actor>>();
+        state
+            .advertised_local_pids' "--only-unit advertise"
+run ctlrecv_warn_text C20 $S 'tracing::warn!("Received duplicate Ready signal");' 'tracing::warn!("Received a duplicate Ready signal");' "--only-unit ctlrecv"
+run proxytable_named_local C20 $S '                state.remote_actors.insert(actor_pid, remote_actor.clone());
+                Ok(remote_actor)' '                let proxy = remote_actor.clone();
+                state.remote_actors.insert(actor_pid, proxy);
+                Ok(remote_actor)' "--only-unit proxytable"
 (cd $wt && git checkout -q -- .)
 git -C /repo worktree remove --force $wt 2>/dev/null
 [ $fail -eq 0 ] && echo "harmless battery: all ok" || echo "harmless battery: FAILURES"
